@@ -321,6 +321,33 @@ impl PrefixParser {
     }
 }
 
+// verification hook (property C06/C07): canonical text of the private name tables
+#[cfg(feature = "verif")]
+impl PrefixParser {
+    /// (units: `alias>full_name:s<short>l<long>m<metric>b<binary>` sorted, other identifiers sorted)
+    pub(crate) fn verif_c06_digest(&self) -> (Vec<String>, Vec<String>) {
+        let mut units: Vec<String> = self
+            .units
+            .iter()
+            .map(|(alias, info)| {
+                format!(
+                    "{}>{}:s{}l{}m{}b{}",
+                    alias,
+                    info.full_name,
+                    info.accepts_prefix.short as u8,
+                    info.accepts_prefix.long as u8,
+                    info.metric_prefixes as u8,
+                    info.binary_prefixes as u8
+                )
+            })
+            .collect();
+        units.sort();
+        let mut others: Vec<String> = self.other_identifiers.keys().map(|k| k.to_string()).collect();
+        others.sort();
+        (units, others)
+    }
+}
+
 #[cfg(test)]
 mod tests {
     use super::*;
